@@ -37,11 +37,19 @@ impl Recipe {
     pub fn builder(&self) -> SchemeBuilder {
         // both public ways of creating a builder (the C API uses the second)
         let mut b = if (self.fields.len() + self.funcs.len()) % 2 == 0 { SchemeBuilder::new() } else { SchemeBuilder::default() };
-        for f in &self.fields {
+        // a third of the recipes is built with refused registrations in between (a name or list type that is already
+        // taken is offered again): a refusal changes nothing, so everything built from the scheme must be unaffected
+        let refusals = (self.fields.len() * 7 + self.funcs.len() * 3 + self.lists.len() + self.nil_ne as usize) % 3 == 0;
+        for (i, f) in self.fields.iter().enumerate() {
             if f.optional {
                 b.add_optional_field(&f.name, f.ty.to_engine()).expect("recipe field names are unique");
             } else {
                 b.add_field(&f.name, f.ty.to_engine()).expect("recipe field names are unique");
+            }
+            if refusals && i % 2 == 1 {
+                let again = &self.fields[i / 2];
+                let _ = b.add_field(&again.name, wirefilter::Type::Int);
+                let _ = b.add_optional_field(&f.name, wirefilter::Type::Bytes);
             }
         }
         for name in &self.funcs {
@@ -55,11 +63,28 @@ impl Recipe {
         if self.concat {
             b.add_function("concat", ConcatFunction::new()).expect("concat unique");
         }
-        for (t, k) in &self.lists {
+        if refusals {
+            if let Some(name) = self.funcs.first() {
+                let _ = b.add_field(name, wirefilter::Type::Bool);
+                let _ = b.add_function(name, ConcatFunction::new());
+            }
+            if let Some(f) = self.fields.last() {
+                let _ = b.add_function(&f.name, ConcatFunction::new());
+            }
+        }
+        for (i, (t, k)) in self.lists.iter().enumerate() {
             match k {
                 ListKind::Set => b.add_list(t.to_engine(), SetList).expect("one list per type"),
                 ListKind::Always => b.add_list(t.to_engine(), AlwaysList {}).expect("one list per type"),
                 ListKind::Never => b.add_list(t.to_engine(), NeverList {}).expect("one list per type"),
+            }
+            if refusals {
+                // the first list's type (and this one's) offered again, with the opposite built-in kind
+                let (t0, k0) = &self.lists[0];
+                let _ = if *k0 == ListKind::Always { b.add_list(t0.to_engine(), NeverList {}) } else { b.add_list(t0.to_engine(), AlwaysList {}) };
+                if i > 0 {
+                    let _ = if *k == ListKind::Always { b.add_list(t.to_engine(), NeverList {}) } else { b.add_list(t.to_engine(), AlwaysList {}) };
+                }
             }
         }
         b.set_nil_not_equal_behavior(self.nil_ne);
